@@ -175,6 +175,23 @@ def step (line : String) : String :=
     match parsePt pt with
     | some pt => showPyLoop (Gen.py_make_loop_index pt (comp == "1")) (comp == "1")
     | none => "bad-op"
+  | ["pysplit", seq, ss] =>
+    match makePairTable ss.toList with
+    | .error e => showErr e
+    | .ok pt =>
+      let stab := makeStrandTableList "+" (words seq)
+      match Gen.py_split_complex_pt (pt.length + 1) stab pt with
+      | .ok parts => "ok " ++ showSplit parts
+      | .error e => showErr e
+  | ["pyrotpt", ss] =>
+    match makePairTable ss.toList with
+    | .error e => showErr e
+    | .ok pt =>
+      let stab := (splitOn '+' ss.toList).map (fun st => st.map String.singleton)
+      match Gen.py_rotate_complex_pt (pt.length + 2) stab pt none with
+      | .error e => showErr e
+      | .ok rs => "ok " ++ " ; ".intercalate (rs.map (fun r =>
+          "|".intercalate (r.1.map String.join) ++ " / " ++ showPt r.2 ++ " / " ++ String.ofList (ptToDb r.2)))
   | ["dlc", seq, ss] =>
     -- ComplexS.is_domainlevel_complement; every domain has length 5 in this stream
     match makePairTable ss.toList with
